@@ -359,6 +359,14 @@ func runF(op string, in M) (M, M) {
 			ser := func(e *slip10.ExtendedKey) []int {
 				return vInts(append(append(append(append([]byte{}, e.Key.Bytes()...), e.ChainCode...), e.Fingerprint()...), e.Key.Public().Bytes()...))
 			}
+			// the buffer held another seed of the same length a moment ago (derived from, then overwritten in place)
+			for i := range seed {
+				seed[i] ^= 0xff
+			}
+			slip10.DeriveKeyFromPath(seed, c, path)
+			for i := range seed {
+				seed[i] ^= 0xff
+			}
 			d, e1 := slip10.DeriveKeyFromPath(seed, c, path)
 			out["direct_ok"] = e1 == nil
 			if e1 == nil {
@@ -471,6 +479,25 @@ func TestVerifDriver(t *testing.T) {
 			path = [][]int{}
 		}
 		emit("slip10.path", M{"curve": curve, "seed": vInts(seed), "path": path})
+	}
+	// parents whose public key has a short x coordinate (leading zero byte: one key in 256), found with the driver's own
+	// point arithmetic: the serialisation that enters the HMAC and the fingerprint must keep its full width
+	for _, curve := range []string{"secp256k1", "p256"} {
+		found := 0
+		for tries := 0; tries < 4000 && found < 2; tries++ {
+			k := make([]byte, 32)
+			r.Read(k)
+			k[0] &= 0x7f
+			if refPub(curve, k)[1] != 0 {
+				continue
+			}
+			found++
+			chain := make([]byte, 32)
+			r.Read(chain)
+			pair := []int{0, r.Intn(1000)}
+			emit("slip10.child", M{"curve": curve, "parent_priv": vInts(k), "chain": vInts(chain), "pub": false, "index": pair, "prior": []int{}})
+			emit("slip10.child", M{"curve": curve, "parent_priv": vInts(k), "chain": vInts(chain), "pub": true, "index": pair})
+		}
 	}
 }
 
